@@ -82,10 +82,10 @@ func streamIs(v ssa.Value, par *ssa.Parameter, st *core.PathState, depth int) bo
 	case *ssa.Call:
 		switch core.CalleeName(x) {
 		case "io.TeeReader":
-			return streamIs(core.CallArgs(x)[0], par, st, depth+1)
+			return streamIs(core.Arg(x, 0), par, st, depth+1)
 		case "io.MultiWriter":
 			// varargs array: any element is the parameter
-			if sl, ok := core.CallArgs(x)[0].(*ssa.Slice); ok {
+			if sl, ok := core.Arg(x, 0).(*ssa.Slice); ok {
 				if a, ok := sl.X.(*ssa.Alloc); ok {
 					for _, ref := range *a.Referrers() {
 						if ia, ok := ref.(*ssa.IndexAddr); ok {
@@ -99,7 +99,7 @@ func streamIs(v ssa.Value, par *ssa.Parameter, st *core.PathState, depth int) bo
 				}
 			}
 		case "bufio.NewReader", "bufio.NewWriter":
-			return streamIs(core.CallArgs(x)[0], par, st, depth+1)
+			return streamIs(core.Arg(x, 0), par, st, depth+1)
 		}
 	case *ssa.MakeInterface:
 		return streamIs(x.X, par, st, depth+1)
